@@ -572,8 +572,9 @@ func (c *VirtualTable) Insert(ctx context.Context, values map[int]interface{}) (
 		new.ColumnValues[colName] = &v1proto.ColumnValue{Value: toSQLiteValue(v)}
 		dbg("SET %d %v=%v\n", i, key, v)
 	}
-	merged := MergeRows(key, ot, old, t, &new, t)
-	err = c.Tree.Root.Set(ctx, t, NewKey(key), merged)
+	et := entryTime(ot, t)
+	merged := MergeRows(key, ot, old, t, &new, et)
+	err = c.Tree.Root.Set(ctx, et, NewKey(key), merged)
 	if err != nil {
 		return 0, fmt.Errorf("set: %w", err)
 	}
@@ -608,8 +609,9 @@ func (c *VirtualTable) Update(ctx context.Context, key interface{}, values map[i
 		colName := c.ColumnNameByIndex[i]
 		new.ColumnValues[colName] = ToColumnValue(v)
 	}
-	merged := MergeRows(key, ot, old, t, &new, t)
-	err = c.Tree.Root.Set(ctx, t, NewKey(key), merged)
+	et := entryTime(ot, t)
+	merged := MergeRows(key, ot, old, t, &new, et)
+	err = c.Tree.Root.Set(ctx, et, NewKey(key), merged)
 	if err != nil {
 		return fmt.Errorf("set: %w", err)
 	}
@@ -628,12 +630,24 @@ func (c *VirtualTable) Delete(ctx context.Context, key interface{}) error {
 	}
 	t := updateTime(ctx)
 	new.Deleted = true
-	merged := MergeRows(key, ot, old, t, &new, t)
-	err = c.Tree.Root.Set(ctx, t, NewKey(key), merged)
+	et := entryTime(ot, t)
+	merged := MergeRows(key, ot, old, t, &new, et)
+	err = c.Tree.Root.Set(ctx, et, NewKey(key), merged)
 	if err != nil {
 		return fmt.Errorf("set: %w", err)
 	}
 	return nil
+}
+
+// entryTime is the modification time to store a row's entry with after a
+// local write at t: never earlier than the time the entry already carries,
+// because the tree discards a Set() older than the stored entry. The write
+// itself keeps t through the per-column and delete offsets.
+func entryTime(ot, t time.Time) time.Time {
+	if ot.After(t) {
+		return ot
+	}
+	return t
 }
 
 // REMOVE var maxTime = time.Unix(1<<63-62135596801, 999999999)
